@@ -285,6 +285,10 @@ def builder_heap(c, new=False):
     return (c.new_ghost if new else c.old_ghost)("json_bprops", J.BuilderHeap)
 
 
+def own_required_heap(c, new=False):
+    return (c.new_ghost if new else c.old_ghost)("json_breq", J.BuilderHeap)
+
+
 def _cleared(k):
     return z3.Or(*[k == lit(x) for x in CLEAR_KEYS])
 
@@ -292,7 +296,7 @@ def _cleared(k):
 @register
 class ClearForState(_JGS):
     targets = ("gemseo.core.grammars.base_grammar.BaseGrammar.clear",)
-    modifies = ("self", "ghost:json_defaults", "ghost:json_bprops")
+    modifies = ("self", "ghost:json_defaults", "ghost:json_bprops", "ghost:json_breq")
     trusted = True
     description = ("assumed here, verified under C15 (BGClear for the template, c15_json_grammar.Clear for JSONGrammar._clear): clear() (re)creates the namespace maps, an "
                    "EMPTY Defaults bound to this grammar, empty required names, a new EMPTY schema builder and the two empty caches; other attributes are kept")
@@ -304,7 +308,7 @@ class ClearForState(_JGS):
         return [("attributes", z3.ForAll([k], d1.has(k) == z3.Or(d0.has(k), _cleared(k)))),
                 ("others-kept", z3.ForAll([k], z3.Implies(z3.And(d0.has(k), z3.Not(_cleared(k))), d1.get(k) == d0.get(k)))),
                 ("empty-defaults", z3.And(z3.ForAll([k], z3.Not(empty_defaults[k])), J.DATA_T.acc(2)(defaults_heap(c, new=True)[d1.get(lit(A_DEFAULTS))]) == 0)),
-                ("empty-builder", z3.ForAll([k], z3.Not(builder_heap(c, new=True)[d1.get(lit(A_BUILDER))][k])))]
+                ("empty-builder", z3.ForAll([k], z3.And(z3.Not(builder_heap(c, new=True)[d1.get(lit(A_BUILDER))][k]), z3.Not(own_required_heap(c, new=True)[d1.get(lit(A_BUILDER))][k]))))]
 
 
 def _state_from_getstate(s):
@@ -322,12 +326,12 @@ def _defaults_are_elements(c):
 
 @register
 class JsonSetState(_JGS):
-    """Every entry of the state becomes an attribute, the builder is refilled from the pickled schema and the defaults of the restored grammar are exactly
-    those of the state (KeyError exactly when a default is bound to a name the pickled schema does not list)."""
+    """Every entry of the state becomes an attribute, the builder is refilled from the pickled schema - its own required set is emptied again, the required names
+    live in the restored RequiredNames - and the defaults of the restored grammar are exactly those of the state (KeyError exactly when a default is bound to a name the pickled schema does not list)."""
 
     targets = (JGQ + ".__setstate__",)
     params = {"state": IDICT}
-    modifies = ("self", "state", "ghost:json_defaults", "ghost:json_bprops")
+    modifies = ("self", "state", "ghost:json_defaults", "ghost:json_bprops", "ghost:json_breq")
     raises = {"KeyError": lambda c: z3.Not(_defaults_are_elements(c))}
 
     def requires(self, c):
@@ -345,4 +349,7 @@ class JsonSetState(_JGS):
             ("defaults:exactly-those-of-the-state", z3.ForAll([k], z3.And(D.acc(0)(restored)[k] == D.acc(0)(src)[k], z3.Implies(D.acc(0)(src)[k], D.acc(1)(restored)[k] == D.acc(1)(src)[k])))),
             ("defaults:size", D.acc(2)(restored) == D.acc(2)(src)),
             ("elements:those-of-the-pickled-schema", z3.ForAll([k], builder_heap(c, new=True)[d1.get(lit(A_BUILDER))][k] == J.pv_schema_props(s0.get(lit(A_SCHEMA)))[k])),
+            # (034df8e) the builder refilled from the pickled schema keeps none of the required names that schema lists: this is the IDLE part of the cache validity
+            # under which c15_json_grammar.Schema proves that the next `schema` / `to_json` list exactly the CURRENT required names
+            ("builder:own-required-set-is-empty", z3.ForAll([k], z3.Not(own_required_heap(c, new=True)[d1.get(lit(A_BUILDER))][k]))),
         ]
